@@ -503,3 +503,11 @@ package types
 //@   requires wf: acmeWF(c)
 //@   at call buildAcmeStorages#1 assert shrunk: calls(AcmeShrink) == 1
 //@ end
+
+// C18 — the path ids of a backend are cut into consecutive chunks: every id
+// lands in exactly one line of the auth-intercept / deny rules
+//@ func (*BackendPathConfig).PathIDs
+//@   props C18
+//@   loop 2 step advance: lower == $head(lower) + maxTokensPerLine && maxTokensPerLine == 30
+//@   at call Join#1 assert chunk: len($arg0) <= 30
+//@ end
